@@ -84,7 +84,7 @@ var _ = refjson.MaxDepth
 
 // marshalEncodeOps: json.MarshalEncode calls (whose implementation appends empty containers and simple values
 // to the buffer on fast paths that bypass the token state machine) interleaved with token calls: every sequence
-// up to a length bound over {structural tokens, a name, a number} and 10 MarshalEncode ops, under option sets
+// up to a length bound over {structural tokens, a name, a number} and 14 MarshalEncode ops, under option sets
 // with and without whitespace, each compared with the model (MarshalEncode of v == WriteValue of v's JSON text).
 func marshalEncodeOps(r *evid.Run) {
 	base := Alphabet()
@@ -141,6 +141,6 @@ func marshalEncodeOps(r *evid.Run) {
 				rec(2)
 			}
 		})
-		r.Bound("MarshalEncode ops: option set %q: all %d^%d sequences over 6 token ops and 10 MarshalEncode ops", o.Name, k, d)
+		r.Bound("MarshalEncode ops: option set %q: all %d^%d sequences over 6 token ops and 14 MarshalEncode ops", o.Name, k, d)
 	}
 }
